@@ -348,9 +348,14 @@ package fs
 //@   at call copier.copy: start: arg3 == "" && arg5 == false
 
 // wildcard expansion: the walk callback only appends to its own result list
+// the walk is pruned only below a directory that itself matched (and was recorded): a pattern
+// with a wildcard in a middle component needs every non-matching directory to be entered
 //@ func resolveWildcards$1
 //@   property C15
 //@   modifies array string
+//@   requires skipdir_is_an_error: filepath.SkipDir != nil
+//@   ensures prune_only_below_a_match: err == nil && filepath.Rel#1(basePath, path) == nil && result == filepath.SkipDir ==> len(out) == old(len(out)) + 1 && info.IsDir()
+//@   ensures record_only_matches: len(out) == old(len(out)) || (len(out) == old(len(out)) + 1 && out[len(out)-1] == path)
 //@ func resolveWildcards
 //@   property C15
 //@   modifies array string
